@@ -82,7 +82,7 @@ def real_worker(case):
                 continue
             stats["kills_fired"] = stats.get("kills_fired", 0) + 1
             snap = open(os.path.join(kd, "tgt.zck"), "rb").read()
-            E, copied, already = c04.expected_fetch(pB, B, pA, snap)
+            E, copied, already = c04.expected_fetch(pB, B, pA, snap, A)
             env2 = {k_: v_ for k_, v_ in env.items() if not k_.startswith(("LD_PRELOAD", "ZCKV_"))}
             r2 = core.run_proc(argv + [url(2)], kd, env=env2, cpu=60)
             stats["evaluations"] += 1
@@ -159,7 +159,7 @@ def worker(case):
             snap = open(os.path.join(kd, "tgt.zck"), "rb").read()
             resumes = 0
             while True:
-                E, copied, already = c04.expected_fetch(pB, B, pA, snap)
+                E, copied, already = c04.expected_fetch(pB, B, pA, snap, A)
                 # partially written chunks at the kill: present on disk in part, not hashing
                 fault = None
                 if k2 and resumes == 0:
